@@ -443,6 +443,10 @@ class MemSession:
         return None
 
     def feed(self, line):
+        # `@long:<n>` stands for a line of n printable characters (kept short in scripts, replays and reports)
+        m = re.match(r"^@long:(\d+)$", line)
+        if m:
+            line = "x" * int(m.group(1))
         self.reader.feed_data(line.encode("utf-8", "surrogatepass") + b"\n")
 
     def eof(self):
